@@ -160,7 +160,7 @@ func VerifC17_P1() {
 
 // P2/P3: //p:all, //p:..., //p:n, //p (shorthand), :n (relative)
 func VerifC17_P2() {
-	p := sym.StringNAlpha("p", bound(3, 5), pkgAlpha)
+	p := sym.StringNAlpha("p", bound(5, 6), pkgAlpha)
 	sym.Assume(cleanPkg(p))
 	form := sym.Choice("form", 5) // 0 //p:all 1 //p:... 2 //p:n 3 //p 4 :n (cur=p)
 	n := ""
